@@ -472,6 +472,10 @@ inductive Op
   | unwrap (token : Nat)
   | undelegateCascade (parent child : Nat)
   | reopen                          -- drop the `Vault`, `Vault::new` over the same store and graph
+  /-- calls that only pass `check_access_with_permission(need)` and touch no secret data: `encrypt_for` /
+      `decrypt_as` / `changelog` (Read), `get_expiration` (Read, secret must exist), `clear_expiration` (Admin,
+      secret must exist) -/
+  | probe (req sec : Nat) (need : Level) (mustExist : Bool)
 deriving Repr
 
 def State.putSecret (s : State) (m : SecretMeta) : State :=
@@ -745,6 +749,12 @@ def State.undelegateCascade (s : State) (parent child : Nat) : State × Resp :=
 def State.reopen (s : State) (now : Nat) : State × Resp :=
   (({ s with ttl := s.pttl, delegs := s.pdelegs }).cleanup now, .ok)
 
+/-- `encrypt_for` / `decrypt_as` / `changelog` / `get_expiration` / `clear_expiration`: the level check, then
+    (for the last two) `NotFound` when there is no such secret -/
+def State.probe (s : State) (now req sec : Nat) (need : Level) (mustExist : Bool) : State × Resp :=
+  s.guarded now req sec need fun s =>
+    if mustExist && !s.exists sec then (s, .err .notFound) else (s, .ok)
+
 /-- one API call at time `now` -/
 def step (s : State) (now : Nat) : Op → State × Resp
   | .set req sec val size => s.set now req sec val size
@@ -769,6 +779,7 @@ def step (s : State) (now : Nat) : Op → State × Resp
   | .unwrap token => s.unwrap token
   | .undelegateCascade p c => s.undelegateCascade p c
   | .reopen => s.reopen now
+  | .probe req sec need me => s.probe now req sec need me
 
 /-- run a timed history -/
 def run (s : State) : List (Nat × Op) → State
